@@ -300,3 +300,86 @@ def runtime_contracts(ctx: Ctx, targets: Sequence[str]) -> None:
                           f"fired: {data['fired'][:3]}")
     for f in data["fired"][:5]:
         ctx.note(f"runtime contract fired (too strict a clause, or a defect the tests do not assert): {f}")
+
+
+# ---- encapsulation (ownership) obligations on process-wide state ------------------------------------------------------------
+_CACHE_DECORATORS = ("lru_cache", "cache", "cached_property", "memoize", "memoized", "cached", "alru_cache")
+_PARSERS = {("ahbicht.expressions.condition_expression_parser", "parse_condition_expression_to_tree"),
+            ("ahbicht.expressions.ahb_expression_parser", "parse_ahb_expression_to_single_requirement_indicator_expressions")}
+
+
+def _decorator_name(d) -> str:
+    import ast
+    if isinstance(d, ast.Call):
+        d = d.func
+    if isinstance(d, ast.Attribute):
+        return d.attr
+    return d.id if isinstance(d, ast.Name) else ""
+
+
+def encapsulation_obligations(ctx: Ctx, cached_function_private: bool = True) -> None:
+    """Ground obligations on the ASTs of ALL repository modules (sufficient conditions behind every 'whatever happened
+    before' argument: C11, the enumeration of C18).  A failing one refutes nothing - it is *undecided*; the bounded
+    history replays decide.
+    state/only-the-two-parser-caches-memoise : the only functions decorated with a memoising decorator are the two
+        parsers, each with `tree_copy` as its OUTERMOST decorator (so every other function computes its result anew)
+    state/cached-function-does-not-escape-tree_copy : inside tree_copy the cached function is only called / asked for
+        cache_info(); it is not returned, stored, passed on (functools.wraps would publish it as __wrapped__), and
+        `decorated` carries no decorator
+    state/no-access-path-around-the-copy : no module mentions __wrapped__ / __closure__ / cell_contents / cache_clear
+    """
+    import ast
+    v = verifier()
+    t0 = time.time()
+    memo, order_bad, around = [], [], []
+    for name, mod in v.ex.repo.modules.items():
+        if not name.startswith("ahbicht"):
+            continue
+        for node in ast.walk(mod.tree):
+            if isinstance(node, (ast.FunctionDef, ast.AsyncFunctionDef)):
+                names = [_decorator_name(d) for d in node.decorator_list]
+                if any(n in _CACHE_DECORATORS for n in names):
+                    memo.append((name, node.name))
+                    if (name, node.name) in _PARSERS and (not names or names[0] != "tree_copy"):
+                        order_bad.append(f"{name}:{node.name} decorators {names}")
+            if isinstance(node, ast.Attribute) and node.attr in ("__wrapped__", "__closure__", "cell_contents", "cache_clear",
+                                                                 "cache_parameters"):
+                around.append(f"{name}:{node.lineno} .{node.attr}")
+            if isinstance(node, ast.Constant) and node.value in ("__wrapped__", "__closure__", "cell_contents"):
+                around.append(f"{name}:{node.lineno} {node.value!r}")
+    others = sorted(set(memo) - _PARSERS)
+    missing = sorted(_PARSERS - set(memo))
+    ok = not others and not missing and not order_bad
+    ctx.obligation("state/only-the-two-parser-caches-memoise", "discharged" if ok else "undecided",
+                   backend="ground check on the ASTs of all modules", seconds=time.time() - t0,
+                   detail=f"memoised functions: {sorted(memo)}; others than the two parsers: {others}; parser without cache: "
+                          f"{missing}; tree_copy not outermost: {order_bad}")
+    if not cached_function_private:
+        return
+    t1 = time.time()
+    escapes: List[str] = []
+    try:
+        mod, node, _ = v.ex.repo.function("ahbicht.utility_functions:tree_copy")
+        param = node.args.args[0].arg
+        parents = {}
+        for n in ast.walk(node):
+            for c in ast.iter_child_nodes(n):
+                parents[c] = n
+        for n in ast.walk(node):
+            if isinstance(n, (ast.FunctionDef, ast.AsyncFunctionDef)) and n is not node and n.decorator_list:
+                escapes.append(f"inner function {n.name} is decorated ({[ast.unparse(d) for d in n.decorator_list]})")
+            if isinstance(n, ast.Name) and n.id == param and isinstance(n.ctx, ast.Load):
+                p = parents.get(n)
+                called = isinstance(p, ast.Call) and p.func is n
+                info = isinstance(p, ast.Attribute) and p.attr == "cache_info" and isinstance(parents.get(p), ast.Call) \
+                    and parents[p].func is p
+                if not (called or info):
+                    escapes.append(f"line {n.lineno}: {ast.unparse(p) if p is not None else param}"[:120])
+            if isinstance(n, ast.Name) and n.id == param and not isinstance(n.ctx, ast.Load):
+                escapes.append(f"line {n.lineno}: {param} is re-bound")
+    except Exception as e:  # noqa
+        escapes.append(f"tree_copy could not be analysed: {type(e).__name__}: {e}")
+    ctx.obligation("state/cached-function-does-not-escape-tree_copy", "discharged" if not escapes else "undecided",
+                   backend="ground check on the AST of tree_copy", seconds=time.time() - t1, detail="; ".join(escapes) or None)
+    ctx.obligation("state/no-access-path-around-the-copy", "discharged" if not around else "undecided",
+                   backend="ground check on the ASTs of all modules", seconds=0.0, detail="; ".join(around[:8]) or None)
